@@ -44,11 +44,11 @@ def run(ctx):
     ctx.preload(cfgs)
     for cfg in cfgs:
         fs = ctx.facts(cfg)
-        registry(ctx, cfg, fs)
-        value_slot(ctx, cfg, fs)
-        lossless(ctx, cfg, fs)
-        cluster_table(ctx, cfg, fs)
-        boundaries(ctx, cfg, fs)
+        ctx.guard(registry, ctx, cfg, fs)
+        ctx.guard(value_slot, ctx, cfg, fs)
+        ctx.guard(lossless, ctx, cfg, fs)
+        ctx.guard(cluster_table, ctx, cfg, fs)
+        ctx.guard(boundaries, ctx, cfg, fs)
 
 def registry(ctx, cfg, fs):
     c12.walker_rules(ctx, cfg, fs, 'R.registry', {'collect_shorts': c12.WALKERS['collect_shorts']})
